@@ -98,7 +98,7 @@ SPEC = {
         "bindings_shared_through_simplify_partial", "cbuffer_block_one_binding_everywhere",
         "hlsl_target_sites_as_modelled", "hlsl_exports_differ_only_in_annotations", "dx_vk_differ_only_in_annotations",
         "vk_vkba_differ_only_where_addresses_are", "dx_vk_differ_only_in_annotations_c01", "dx_has_no_vk_annotations",
-        "frontEndRunsBeforeAnyTargetSpecificStep", "compile_factors_through_front_end",
+        "frontEndRunsBeforeAnyTargetSpecificStep", "toolchain_uses_covered", "compile_factors_through_front_end",
         "front_end_diagnostic_same_for_every_target", "msl_metal_bytecode_same_defines", "front_metal_bytecode_eq_msl",
         "metal_bytecode_without_toolchain", "msl_verdict", "buildPipeline_metal_bytecode_no_toolchain", "buildPipeline_msl",
         "valid_for_msl_metal_bytecode_ends_at_toolchain", "rejected_for_msl_metal_bytecode_same_or_toolchain"]],
